@@ -492,6 +492,8 @@ class Oracle:
                     self.names.setdefault(c, {})[name] = bool(flags & 4)
                 elif code == 3:
                     self.names.get(c, {}).pop(name, None)
+            elif refused and name in self.names.get(c, {}):
+                bad.append("RequestName refused with LimitsExceeded for a name connection %d already holds (the request would not add a name)" % c)
             elif refused and before < self.lim[3]:
                 bad.append("RequestName refused with LimitsExceeded although connection %d holds %d names (max_names_per_connection=%d)" % (c, before, self.lim[3]))
         elif kind == "L":
